@@ -608,6 +608,11 @@ def corpus_net(rng, name):
             y = b.pool(x, "AVERAGE_POOL_2D", (2, 2), (1, 4), "VALID")
             z = b.reshape(y, [1, 84])
         return b.finish([z])
+    if name == "known_sigmoid_relu6":
+        # int16 LOGISTIC -> RELU6: both are packed into one pass (one average pool), the command generator keeps the last activation
+        b = make_builder(rng, name, "int16")
+        x = b.input([1, 4, 4, 8], scale=0.001, zp=0)
+        return b.finish([b.unary("RELU6", b.unary("LOGISTIC", x))])
     if name == "known_protected_reshape_inplace":
         b = make_builder(rng, name, "int8")
         x = b.input([1, 8, 12, 17], scale=0.05, zp=3)
@@ -850,8 +855,11 @@ def _worker(job):
                                int((o.opts[1] if o.opts else {}).get("Padding", -1)),
                                max(int((o.opts[1] if o.opts else {}).get("StrideW", 1)), int((o.opts[1] if o.opts else {}).get("StrideH", 1))))
                               for o in net.ops])
-        with c01_lib.WeightCapture() as capture:
+        import c01_packing
+
+        with c01_lib.WeightCapture() as capture, c01_packing.Capture() as pcap:
             res = pipeline.compile_net(data, opts, name=f"n{idx}")
+        out["packing"] = pcap.cases
         out.update(status=res.status, exc=(type(res.exc).__name__ + ": " + str(res.exc))[:300] if res.exc is not None else "",
                    exc_site=pipe_common.exc_site(res.tb, res.exc))
         if res.status == "ok" and res.out_model is not None:
@@ -979,6 +987,21 @@ def transpose_then_activation(o):
                for kind, ins, outs, faf, pad, stride in g)
 
 
+def tanh_sigmoid_next_to_relu(o):
+    """int16 TANH / LOGISTIC (not lowered to a table) whose input comes from, or whose output goes to, a RELU-type operator"""
+    if o.get("dtype") != "int16":
+        return False
+    g = o.get("src_graph") or []
+    relu = ("RELU", "RELU6", "RELU_N1_TO_1")
+    prod = {outs[0]: kind for kind, ins, outs, faf, pad, stride in g if outs}
+    for kind, ins, outs, faf, pad, stride in g:
+        if kind in ("TANH", "LOGISTIC") and ins and prod.get(ins[0]) in relu:
+            return True
+        if kind in relu and ins and prod.get(ins[0]) in ("TANH", "LOGISTIC"):
+            return True
+    return False
+
+
 ELEMENTWISE_KINDS = ("ADD", "SUB", "MUL", "MINIMUM", "MAXIMUM", "ABS", "LEAKY_RELU", "PRELU", "HARD_SWISH", "TANH", "LOGISTIC", "EXP",
                      "SQUARED_DIFFERENCE")
 
@@ -1006,16 +1029,16 @@ def wide_stride_avgpool(o):
                for kind, ins, outs, faf, pad, stride in o.get("src_graph") or [])
 
 
-def classify_failure(o, ans):
-    """stable key of an open known finding (see known_findings.txt), or None. Only the structure of the source network
-    is consulted; the verdict itself is Lean's."""
+def _classify_candidate(o, ans, skip):
+    """first key, not in `skip`, whose structural condition the source network meets (see classify_failure)"""
     g = o.get("src_graph") or []
     if "weights_do_not_fit_the_IFM_depth" in ans:
         # AVERAGE_POOL_2D with a width stride >= 4 lowered to a convolution with one input channel
         shapes, strides = o.get("src_shapes") or [], o.get("src_strides") or []
         for n_op, (kind, ins, outs, faf, pad, stride) in enumerate(g):
             if kind == "AVERAGE_POOL_2D" and n_op < len(strides) and strides[n_op][1] >= 4 and ins[0] < len(shapes) and shapes[ins[0]][-1] > 1:
-                return "avgpool-wide-stride-as-conv:weights-have-one-input-channel"
+                if "avgpool-wide-stride-as-conv:weights-have-one-input-channel" not in skip:
+                    return "avgpool-wide-stride-as-conv:weights-have-one-input-channel"
     if ans.endswith("verdict=fail"):
         # Maximum(x, Mul(x, c)) with a constant scalar c taken for LeakyRelu / Relu / Abs on its quantised value
         quant, scalars = o.get("src_quant") or [], o.get("src_scalars") or {}
@@ -1031,17 +1054,21 @@ def classify_failure(o, ans):
                         q, zpc, sc = scalars[c[0]], quant[c[0]][1][0], float(np.float32(quant[c[0]][0][0]))
                         real = (q - zpc) * sc
                         if q == 0 and zpc != 0:
-                            return "mul-max-to-relu:quantised-zero-with-nonzero-zero-point"
+                            if "mul-max-to-relu:quantised-zero-with-nonzero-zero-point" not in skip:
+                                return "mul-max-to-relu:quantised-zero-with-nonzero-zero-point"
                         if q == -1 and real != -1:
-                            return "mul-max-to-abs:quantised-minus-one-not-real-minus-one"
+                            if "mul-max-to-abs:quantised-minus-one-not-real-minus-one" not in skip:
+                                return "mul-max-to-abs:quantised-minus-one-not-real-minus-one"
                         if q >= 0 and real > 1:
-                            return "mul-max-to-lrelu:real-constant-above-one"
+                            if "mul-max-to-lrelu:real-constant-above-one" not in skip:
+                                return "mul-max-to-lrelu:real-constant-above-one"
         # dilation above 2 (sparse kernel built in software) with asymmetric (uint8) weights
         dils = o.get("src_dilations") or []
         for n_op, (kind, ins, outs, faf, pad, stride) in enumerate(g):
             if kind in ("CONV_2D", "DEPTHWISE_CONV_2D") and n_op < len(dils) and dils[n_op] > 2 and len(ins) > 1 and ins[1] < len(quant) \
                     and any(z != 0 for z in quant[ins[1]][1]):
-                return "software-dilation:inserted-taps-zero-instead-of-weight-zero-point"
+                if "software-dilation:inserted-taps-zero-instead-of-weight-zero-point" not in skip:
+                    return "software-dilation:inserted-taps-zero-instead-of-weight-zero-point"
         # SAME-padded CONV_2D whose width gets folded into the channels (first operator with a width stride > 1, or any with a width
         # stride > 3): explicit padding from the unfolded width when the OFM height/width is 1, misaligned filter zero columns otherwise
         shapes, strides = o.get("src_shapes") or [], o.get("src_strides") or []
@@ -1049,40 +1076,54 @@ def classify_failure(o, ans):
             if kind == "CONV_2D" and pad == 0 and n_op < len(strides) and strides[n_op][1] > 1 and (n_op == 0 or strides[n_op][1] > 3):
                 osh = shapes[outs[0]] if outs[0] < len(shapes) else []
                 if len(osh) == 4 and (osh[1] == 1 or osh[2] == 1):
-                    return "strided-conv-fold:unit-output-padding-from-unfolded-width"
-                return "strided-conv-fold:filter-zero-padding-misaligned"
+                    if "strided-conv-fold:unit-output-padding-from-unfolded-width" not in skip:
+                        return "strided-conv-fold:unit-output-padding-from-unfolded-width"
+                if "strided-conv-fold:filter-zero-padding-misaligned" not in skip:
+                    return "strided-conv-fold:filter-zero-padding-misaligned"
         # PAD with channel (or batch) padding and spatial padding at once: convert_pad_to_concat keeps only the channel part
         pads = o.get("src_pads") or {}
         for kind, ins, outs, faf, pad, stride in g:
             if kind == "PAD" and len(ins) > 1 and ins[1] in pads:
                 pv = pads[ins[1]]
                 if (sum(pv[-1]) != 0 or (len(pv) == 4 and sum(pv[0]) != 0)) and sum(pv[-3]) + sum(pv[-2]) != 0:
-                    return "pad-spatial-and-channel-padding:spatial-part-dropped"
+                    if "pad-spatial-and-channel-padding:spatial-part-dropped" not in skip:
+                        return "pad-spatial-and-channel-padding:spatial-part-dropped"
         # int16 LEAKY_RELU with differing scales lowered to Maximum(Mul, Mul): each branch rounds twice
         if o.get("dtype") == "int16" and re.search(r"maxdiff=1 ", ans) and not re.search(r"maxdiff=([2-9]|1\d)", ans):
             for kind, ins, outs, faf, pad, stride in g:
                 if kind == "LEAKY_RELU" and quant and quant[ins[0]][0] != quant[outs[0]][0]:
-                    return "int16-lrelu-mul-max-rounds-each-branch"
+                    if "int16-lrelu-mul-max-rounds-each-branch" not in skip:
+                        return "int16-lrelu-mul-max-rounds-each-branch"
     # (keys of the second C01 worker; the wide-stride average pool and the dilation-above-two zero fill are the same defects as
     # the two keys above, reached when the more specific conditions above do not hold)
     if (ans.endswith("verdict=fail") or ans.startswith("err:out:")) and wide_stride_avgpool(o):
-        return "wide-stride-avgpool-converted-with-one-input-channel-kernel"
+        if "wide-stride-avgpool-converted-with-one-input-channel-kernel" not in skip:
+            return "wide-stride-avgpool-converted-with-one-input-channel-kernel"
     if ans.endswith("verdict=fail") and mean_over_unit_axes(o):
-        return "mean-over-unit-axes-drops-requantisation"
+        if "mean-over-unit-axes-drops-requantisation" not in skip:
+            return "mean-over-unit-axes-drops-requantisation"
     if ans.endswith("verdict=fail") and protected_tensor_reshaped_into_elementwise(o):
-        return "write-protected-tensor-shares-memory-with-reshape-copy"
+        if "write-protected-tensor-shares-memory-with-reshape-copy" not in skip:
+            return "write-protected-tensor-shares-memory-with-reshape-copy"
+    if ans.endswith("verdict=fail") and tanh_sigmoid_next_to_relu(o):
+        import c01_packing
+
+        if c01_packing.KEY_TWO_ACTIVATIONS not in skip:
+            return c01_packing.KEY_TWO_ACTIVATIONS
     if ans.endswith("verdict=fail") and transpose_then_activation(o):
-        return "transpose-then-packed-activation-loses-transposition"
+        if "transpose-then-packed-activation-loses-transposition" not in skip:
+            return "transpose-then-packed-activation-loses-transposition"
     if ans.endswith("verdict=fail") or ans.startswith("err:out:"):
         k = weights_findings(o)
-        if k is not None:
+        if k is not None and k not in skip:
             return k
     if ans.endswith("verdict=fail") or ans.startswith("err:out:"):
         k = lowered_then_reshaped(o)
-        if k is not None:
+        if k is not None and k + "-then-reshape-lowered-with-reshaped-ofm-shape" not in skip:
             return k + "-then-reshape-lowered-with-reshaped-ofm-shape"
     if ans.endswith("verdict=fail") and ofm_batch_above_one(o):
-        return "ofm-batch-above-one-accepted-on-npu"
+        if "ofm-batch-above-one-accepted-on-npu" not in skip:
+            return "ofm-batch-above-one-accepted-on-npu"
     if not (ans.endswith("verdict=fail") or "read_outside_region" in ans) or o.get("dtype") != "int16":
         return None
     consumers = {}
@@ -1091,8 +1132,35 @@ def classify_failure(o, ans):
             consumers.setdefault(t, []).append(kind)
     for kind, ins, outs, faf, pad, stride in g:
         if kind == "LEAKY_RELU" and any(c in MEMORY_ONLY for c in consumers.get(outs[0], [])):
-            return "int16-lrelu-mul-max-then-reshape-recomputes-shapes"
+            if "int16-lrelu-mul-max-then-reshape-recomputes-shapes" not in skip:
+                return "int16-lrelu-mul-max-then-reshape-recomputes-shapes"
     return None
+
+
+
+_OPEN_KEYS = None
+
+
+def classify_failure(o, ans):
+    """stable key of an open known finding (see known_findings.txt), or None. Only the structure of the source network
+    is consulted; the verdict itself is Lean's. The structural conditions are tried in a fixed order; a key whose finding has
+    been repaired meanwhile (no `finding:` line any more) must not shadow an open finding that the network also matches (a
+    network with a repaired wide-stride AVERAGE_POOL_2D and an open PRELU -> RESHAPE): such keys are skipped. When no open
+    key matches, the first matching key is returned (the violation is then reported under it)."""
+    global _OPEN_KEYS
+    if _OPEN_KEYS is None:
+        _OPEN_KEYS = {k["key"] for k in common.load_known_findings() if k["property"] == "C01"}
+    skip, first = set(), None
+    for _ in range(64):         # every round adds a new key to `skip`; there are fewer than 64 keys
+        k = _classify_candidate(o, ans, skip)
+        if k is None or k in skip:
+            return first
+        if first is None:
+            first = k
+        if k in _OPEN_KEYS:
+            return k
+        skip.add(k)
+    return first
 
 
 def replay(ck, path):
@@ -1115,7 +1183,8 @@ def replay(ck, path):
 
 def main():
     ck = Check("C01", "translation_validation")
-    ck.lean_stage(["VelaVerif.Props.C01", "VelaVerif.Props.C01Rewrites", "VelaVerif.Props.C01Wide"])
+    ck.lean_stage(["VelaVerif.Props.C01", "VelaVerif.Props.C01Rewrites", "VelaVerif.Props.C01Wide", "VelaVerif.Props.C01Packing",
+                   "VelaVerif.Props.C01Slice"])
     if ck.replay_arg:
         replay(ck, ck.replay_arg)
     import pipeline
@@ -1128,6 +1197,13 @@ def main():
     t0 = time.time()
     rw = c01_rewrites.run(ck)
     ck.count("seconds_rewrite_streams", round(time.time() - t0))
+    # pass packing: the model of pack_into_passes (Model/PassPacking.lean) against the real function on generated graphs; the
+    # subgraphs of the networks compiled below are judged after the compile stage
+    import c01_packing
+
+    t0 = time.time()
+    pk = c01_packing.run(ck)
+    ck.count("seconds_packing_generated_stream", round(time.time() - t0))
     n = 40000 if ck.thorough else 6000
     k_inputs = 5 if ck.thorough else 4
     jobs = [(0, 0, "known_" + nm, k_inputs) for nm in ("slice_relu", "fused_act_relu", "pad_conv_reshape", "quantize_relu", "reshape_relu",
@@ -1139,7 +1215,7 @@ def main():
                                                               "mean_unit_axes", "concat_batch_axis",
                                                               "resize_reshape", "mean_reshape", "widepool_reshape",
                                                               "transpose_relu", "sqdiff_reshape", "dilation3_uint8", "shared_dilation3", "shared_tconv",
-                                                              "prelu_reshape", "transpose_lut_mul", "protected_reshape_inplace")]
+                                                              "prelu_reshape", "transpose_lut_mul", "protected_reshape_inplace", "sigmoid_relu6")]
     jobs += [(ck.seed, i, PROFILES[i % len(PROFILES)], k_inputs) for i in range(n)]
     ctx = multiprocessing.get_context("fork")
     t0 = time.time()
@@ -1156,6 +1232,14 @@ def main():
             outs += list(ex.map(_worker, jobs[k:k + 500], chunksize=1))
     ck.count("seconds_compile_and_build_requests", round(time.time() - t0))
     lines, owners = [], []
+    t0p = time.time()
+    pcases = []
+    for o in outs:
+        for c in o.get("packing") or []:
+            c["origin"] = f"network {o['idx']} {o['profile']} seed {o['seed']} {o.get('src_ops')} {o.get('opts')}"
+            pcases.append(c)
+    c01_packing.judge(ck, pcases, "compiled", pk)
+    ck.count("seconds_packing_compiled_corpus", round(time.time() - t0p))
     for o in outs:
         if "harness_exception" in o:
             raise common.InfraError("pipeline worker failed:\n" + o["harness_exception"])
@@ -1230,8 +1314,10 @@ def main():
         ck.sample({"network": o["desc"], "opts": o["opts"], "features": o.get("features"), "verdict": ans[:300]})
     ck.finish({
         "programs": judged,
-        "evaluations": len(outs) + rw.evaluations,
-        "distinct_nontrivial": len(nontrivial) + len(rw.nontrivial),
+        "evaluations": len(outs) + rw.evaluations + pk.evaluations,
+        "distinct_nontrivial": len(nontrivial) + len(rw.nontrivial) + len(pk.nontrivial),
+        "packing_evaluations": pk.evaluations,
+        "packing_distinct": len(pk.nontrivial),
         "rewrite_stream_evaluations": rw.evaluations,
         "rewrite_stream_distinct": len(rw.nontrivial),
         "inputs_per_network": k_inputs,
@@ -1239,7 +1325,10 @@ def main():
                 "models executed by Lean on every input set; non-trivial = at least one NPU operation was executed by the "
                 "stream executor and at least one output has a judged tolerance class; distinct by (profile, index, options). Rewrite "
                 "streams: evaluation = one operator (group) built from the repo's classes and rewritten by the real function, compared with "
-                "the Lean model and judged by the Lean per-element semantics; distinct by the operator's parameters",
+                "the Lean model and judged by the Lean per-element semantics; distinct by the operator's parameters. Pass packing: evaluation = "
+                "one subgraph (generated with the repo's classes, or of a compiled network) packed by the real pack_into_passes, compared "
+                "with the Lean model and judged by the Lean Spec clauses (partition, order, pass shape) on the real pass list; distinct by "
+                "the graph description",
         "exhaustive": False,
         "trusted_base_extra": [
             "Spec/NpuSem.lean: hardware arithmetic transcribed from Vela's own register usage and the public register "
